@@ -776,7 +776,7 @@ class Engine:
         op.update(cls=n.cls, target=n.uid)
         self.last_footprint["any_type"] = False
         src = self.ent(n.uid)
-        if n.kind == "object" and any(n.pgs.values()) and self.rng.random() < 0.5:
+        if n.kind == "object" and any(n.pgs.values()) and (getattr(self, "force_precopy", False) or self.rng.random() < 0.5):
             # one grouped child travels on its own first: its identifier is then taken in the target workspace
             member = self.rng.choice(sorted({u for mem in n.pgs.values() for u in mem}))
             from geoh5py.objects import Points
